@@ -8,6 +8,8 @@
 package cache
 
 import (
+	"time"
+	"net"
 	"bufio"
 	"bytes"
 	"crypto/sha256"
@@ -664,10 +666,25 @@ func TestVerifC10Save(t *testing.T) {
 		n++
 		dir := filepath.Join(base, fmt.Sprintf("perm%d", n))
 		prep(dir)
-		_, err := NewCache(Options{CacheDir: dir})
+		// a cache that goes on to USE a special file may block reading it: watchdog, then unblock
+		done := make(chan error, 1)
+		go func() { _, err := NewCache(Options{CacheDir: dir}); done <- err }()
 		res := "accepted"
-		if err != nil {
-			res = "refused"
+		select {
+		case err := <-done:
+			if err != nil {
+				res = "refused"
+			}
+		case <-time.After(3 * time.Second):
+			res = "accepted-and-blocked"
+			if f, err := os.OpenFile(filepath.Join(dir, "cache"), os.O_WRONLY|syscall.O_NONBLOCK, 0); err == nil {
+				f.Write(snap)
+				f.Close()
+			}
+			select {
+			case <-done:
+			case <-time.After(5 * time.Second):
+			}
 		}
 		fmt.Fprintf(w, "P %s %s %d %s\n", target, kind, mode, res)
 		os.RemoveAll(dir)
@@ -701,6 +718,20 @@ func TestVerifC10Save(t *testing.T) {
 	try("file", "symlink", 0, func(dir string) { mkdir(dir, 0o710); os.Symlink(dir+".nonexistent", filepath.Join(dir, "cache")) })
 	try("file", "dir", 0o755, func(dir string) { mkdir(dir, 0o710); mkdir(filepath.Join(dir, "cache"), 0o755) })
 	try("file", "other", 0o644, func(dir string) { mkdir(dir, 0o710); syscall.Mkfifo(filepath.Join(dir, "cache"), 0o644) })
+	try("file", "other", 0o600, func(dir string) { mkdir(dir, 0o710); syscall.Mkfifo(filepath.Join(dir, "cache"), 0o600) })
+	try("file", "other", 0o644, func(dir string) {
+		mkdir(dir, 0o710)
+		if l, err := net.Listen("unix", filepath.Join(dir, "cache")); err == nil {
+			l.(*net.UnixListener).SetUnlinkOnClose(false)
+			l.Close()
+		}
+		os.Chmod(filepath.Join(dir, "cache"), 0o644)
+	})
+	try("file", "other", 0o644, func(dir string) {
+		mkdir(dir, 0o710)
+		syscall.Mknod(filepath.Join(dir, "cache"), syscall.S_IFCHR|0o644, 1<<8|3) // a character device (as /dev/null), if permitted
+	})
+	try("data", "other", 0o755, func(dir string) { mkdir(dir, 0o710); syscall.Mkfifo(filepath.Join(dir, "containers"), 0o755) })
 	try("dir", "symlink", 0o710, func(dir string) { mkdir(dir+".target", 0o710); os.Symlink(dir+".target", dir) })
 	try("dir", "regular", 0o644, func(dir string) { os.WriteFile(dir, []byte("x"), 0o644) })
 	try("data", "symlink", 0o755, func(dir string) {
